@@ -61,6 +61,7 @@ type step struct {
 	Kind    string     `json:"kind,omitempty"`
 	Other   int        `json:"other,omitempty"`
 	Res     string     `json:"res,omitempty"`
+	Via     string     `json:"via,omitempty"`
 }
 
 type behaviour struct {
@@ -547,6 +548,8 @@ func (x *runner) doStep(s *step) {
 		x.after(r, s)
 	case "Tamper":
 		x.tamper(x.reps[s.R], s)
+	case "AddBatchTail":
+		x.batchTail(x.reps[s.R], s)
 	default:
 		panic("unknown step " + s.Act)
 	}
@@ -678,9 +681,14 @@ func flip(b []byte, i int, mask byte) []byte {
 
 // variants renders one Tamper step of the model into concrete records made from real bytes
 func (x *runner) variants(r *replica, s *step) ([]variant, error) {
+	return x.variantsAt(r, s, r.applied())
+}
+
+// variantsAt: the same for a list that holds log[1..at] (the tail of a batch that ends at record at)
+func (x *runner) variantsAt(r *replica, s *step, at int) ([]variant, error) {
 	w := x.w
 	var out []variant
-	next := func() *consensusproto.RawRecordWithId { return w.log[r.applied()] }
+	next := func() *consensusproto.RawRecordWithId { return w.log[at] }
 	other := func() string {
 		if s.Other == 0 {
 			return w.unknownId(x.stepNo)
@@ -713,8 +721,8 @@ func (x *runner) variants(r *replica, s *step) ([]variant, error) {
 		out = append(out, variant{"other-cid", &consensusproto.RawRecordWithId{Id: alt, Payload: base.Payload}})
 		out = append(out, variant{"unknown-cid", &consensusproto.RawRecordWithId{Id: w.unknownId(3), Payload: base.Payload}})
 		out = append(out, variant{"not-a-cid", &consensusproto.RawRecordWithId{Id: base.Id + "x", Payload: base.Payload}})
-		if r.applied()+1 < len(w.log) {
-			out = append(out, variant{"later-records-id", &consensusproto.RawRecordWithId{Id: w.log[r.applied()+1].Id, Payload: base.Payload}})
+		if at+1 < len(w.log) {
+			out = append(out, variant{"later-records-id", &consensusproto.RawRecordWithId{Id: w.log[at+1].Id, Payload: base.Payload}})
 		}
 	case "prevId":
 		raw := decodeRaw(next())
@@ -759,17 +767,17 @@ func (x *runner) variants(r *replica, s *step) ([]variant, error) {
 		rec.PrevId = other()
 		author, ok := w.nameOfIdentity(rec.Identity)
 		if !ok {
-			return nil, fmt.Errorf("author of record %d unknown", r.applied()+1)
+			return nil, fmt.Errorf("author of record %d unknown", at+1)
 		}
 		out = append(out, variant{"re-signed", w.sign(signedBy(rec, w.keys[author].SignKey))})
 	case "gap", "dup":
 		out = append(out, variant{"accepted-record", w.log[s.Other-1]})
 	case "unaccepted":
-		raw, err := w.badRecord(s.A, s.Cs)
+		raw, err := w.badRecord(s.A, s.Cs, at)
 		if err != nil {
 			return nil, err
 		}
-		if verr := w.acceptor.ValidateRawRecord(raw, nil); verr == nil {
+		if !w.refusedAt(raw, at) {
 			return nil, fmt.Errorf("the acceptor accepts %v by %s", s.Cs, s.A)
 		}
 		out = append(out, variant{"not-signed-by-acceptor", wrap(raw)})
@@ -830,6 +838,105 @@ func (x *runner) tamper(r *replica, s *step) {
 		}
 	}
 	x.trace.tamper(x, s, r)
+}
+
+// AddBatchTail: accepted records log[i..j] (at least one new) followed by a refusable record made
+// for the state after record j, handed to AddRawRecords. The accepted records must be there
+// afterwards and the tail must have left nothing: the list is compared with the one-at-a-time
+// reference at prefix j and with a rebuild from its own storage. Every rendering of the tail is
+// tried on a scratch copy of the replica (same identity and mode, in-memory storage); one of them
+// then goes to the replica itself through the caller the behaviour names (direct, the sync
+// handler's head update, the sync handler's full-sync response).
+func (x *runner) batchTail(r *replica, s *step) {
+	w := x.w
+	if s.I < 1 || s.I > r.applied()+1 || s.J < r.applied()+1 || s.J > len(w.log) {
+		x.drift("AddBatchTail(%d..%d) is not enabled: %s holds %d of %d", s.I, s.J, r.name, r.applied(), len(w.log))
+		return
+	}
+	at := s.J
+	vs, err := x.variantsAt(r, s, at)
+	if err != nil {
+		if x.free {
+			return
+		}
+		x.drift("batch tail %s cannot be rendered: %v", s.Kind, err)
+		return
+	}
+	if len(vs) > 5 { // byte flips: a sample; the single-record Tamper step sweeps them
+		keep := vs[:0:0]
+		for i := 0; i < 5; i++ {
+			keep = append(keep, vs[(x.stepNo+i*len(vs)/5)%len(vs)])
+		}
+		vs = keep
+	}
+	via := s.Via
+	if via == "" {
+		via = "direct"
+	}
+	batchWith := func(v variant) []*consensusproto.RawRecordWithId {
+		return append(cloneRecs(w.log[s.I-1:s.J]), &consensusproto.RawRecordWithId{Id: v.rec.Id, Payload: append([]byte(nil), v.rec.Payload...)})
+	}
+	// judge: the list after the call against the reference at prefix at
+	judge := func(l list.AclList, v variant, where string) bool {
+		vn := strings.SplitN(v.name, "@", 2)[0]
+		n := len(l.Records())
+		if n > at {
+			x.violate("refusable-record-accepted/"+s.Kind+"/"+vn+"/batch-tail/"+r.cfg.Mode, "%s of %s (%s): AddRawRecords(log[%d..%d] + refusable record (%s, %s)) left %d records, head %s", where, r.name, r.cfg, s.I, s.J, s.Kind, v.name, n, l.Head().Id)
+			return false
+		}
+		if n < at {
+			x.rep.DriftNote("%s step %d: %s kept %d of the %d accepted records in front of a refused one (%s, %s)", x.b.Name, x.stepNo, where, n, at, s.Kind, v.name)
+			return false
+		}
+		if got, want := w.project(l).String(), w.refProj[at-1].String(); got != want {
+			x.violate("refused-record-left-traces/"+s.Kind+"/batch-tail/"+r.cfg.Mode+"/state", "%s of %s (%s) after AddRawRecords(log[%d..%d] + refused record (%s, %s) by %s %v): state %s, one-at-a-time reference at record %d %s",
+				where, r.name, r.cfg, s.I, s.J, s.Kind, v.name, s.A, s.Cs, got, at, want)
+			return false
+		}
+		if got, want := private(l, w).String(), w.refPriv[r.cfg.Ident][at-1].String(); got != want {
+			x.violate("refused-record-left-traces/"+s.Kind+"/batch-tail/"+r.cfg.Mode+"/keys", "%s of %s (%s) after a batch with a refused tail (%s, %s): key view %s, reference %s", where, r.name, r.cfg, s.Kind, v.name, got, want)
+			return false
+		}
+		return true
+	}
+	for _, v := range vs {
+		x.rep.Case("batch-tail/" + s.Kind + "/" + strings.SplitN(v.name, "@", 2)[0] + "/" + r.cfg.Mode)
+		scratch := w.freshList(r.cfg.Ident, r.cfg.Mode, w.log[:r.applied()])
+		err := scratch.AddRawRecords(batchWith(v))
+		if err == nil && len(scratch.Records()) <= at {
+			x.violate("refused-tail-not-reported/"+s.Kind+"/"+r.cfg.Mode, "AddRawRecords(log[%d..%d] + refusable record (%s, %s)) returned no error", s.I, s.J, s.Kind, v.name)
+		}
+		if !judge(scratch, v, "scratch copy") {
+			x.stop = true // the replica still takes its step below so that the recorded trace shows it
+			break
+		}
+	}
+	// the replica itself
+	v := vs[x.stepNo%len(vs)]
+	x.rep.Case("batch-tail-via/" + via + "/" + s.Kind + "/" + r.tag())
+	recs := batchWith(v)
+	switch via {
+	case "direct":
+		_ = r.acl.AddRawRecords(recs)
+	case "headUpdate", "response":
+		if err := x.hostileBatch(r, recs, via); err != nil {
+			panic("harness: hostile batch: " + err.Error())
+		}
+	default:
+		panic("harness: unknown via " + via)
+	}
+	r.path = "batch-tail"
+	if !judge(r.acl, v, "replica") || x.stop {
+		x.checkReplica(r)
+		x.trace.replicaStep(x, s, r)
+		x.stop = true
+		return
+	}
+	if x.checkRebuilt(r, false) == nil {
+		x.stop = true
+		return
+	}
+	x.after(r, s)
 }
 
 // ---------------------------------------------------------------------------------------------
@@ -911,7 +1018,9 @@ func TestReplay(t *testing.T) {
 			b.Matrix = every > 0 && i%every == 0
 			bs = append(bs, b)
 		}
-		bs = append(bs, directedBehaviours()...)
+		if os.Getenv("VERIF_NO_DIRECTED") == "" {
+			bs = append(bs, directedBehaviours()...)
+		}
 	}
 	workers := vfutil.EnvInt("VERIF_WORKERS", 6)
 	var wg sync.WaitGroup
